@@ -623,6 +623,25 @@ CPlan gen(uint64_t seed, bool failing) {
     if (failing && r.chance(1, 6)) op.failk = r.range(1, 2);
     p.ops.push_back(op);
   }
+  // drain cycles: a small table is filled with fresh keys, every element is removed again, the table is emptied,
+  // and the next round uses other keys -- so that whatever removals leave behind in the entries accumulates
+  if ((focus == 0 || focus == 1) && r.chance(1, 4)) {
+    size_t ph = p.ops.size();
+    COp o; o.kind = HT_DELETE; p.ops.push_back(o);
+    o = COp(); o.kind = HT_CREATE; o.a = r.range(0, 12); o.b = (long)r.below(4); p.ops.push_back(o);
+    int rounds = r.range(2, 9), base = (int)r.below(48);
+    bool with_empty = !r.chance(1, 5);
+    for (int k = 0; k < rounds; k++) {
+      int m = r.range(2, 9);
+      for (int i = 0; i < m; i++) { o = COp(); o.kind = HT_INSERT; o.a = (base + i) % 48; p.ops.push_back(o); }
+      if (r.chance(1, 2)) { o = COp(); o.kind = HT_FIND; o.a = (long)r.below(48); p.ops.push_back(o); }
+      for (int i = 0; i < m; i++) { o = COp(); o.kind = HT_REMOVE; o.a = (base + (r.chance(1, 2) ? i : m - 1 - i)) % 48; p.ops.push_back(o); }
+      if (with_empty || r.chance(1, 2)) { o = COp(); o.kind = HT_EMPTY; p.ops.push_back(o); }
+      if (r.chance(1, 3)) { o = COp(); o.kind = HT_COUNT; p.ops.push_back(o); }
+      base = (base + m + (int)r.below(3)) % 48;
+    }
+    if (failing) for (size_t i = ph; i < p.ops.size(); i++) if (r.chance(1, 12)) p.ops[i].failk = r.range(1, 2);
+  }
   // make sure the containers exist early
   COp c; c.kind = HT_CREATE; c.a = r.range(0, 8); c.b = (long)r.below(4);
   p.ops.insert(p.ops.begin(), c);
